@@ -8,6 +8,7 @@ package consensus
 
 import (
 	"fmt"
+	"io"
 	"sort"
 	"strings"
 	"testing"
@@ -162,4 +163,256 @@ func TestVerifC15Replay(t *testing.T) {
 		}
 	}
 	r.Bound = "every event count of both schedules"
+}
+
+// ---- part 3: a record torn at the end of the log, restart, more records, restart ----
+//
+// The node of the C04 schedules is stopped after k delivered events with its WAL synced; one more record is
+// written and the machine dies while it is only partly on disk (every enumerated byte length). The node is
+// restarted through the real State.OnStart (catchupReplay, and the repair it decides on), continues the
+// schedule (its own votes and the end-of-height marker are synced writes), and then
+//   A. the whole log is read from its first byte: every record must decode (what was written behind the torn
+//      record was acknowledged as synced, so a later reader must return it), and the end-of-height marker of a
+//      finished height must be found;
+//   B. the machine dies again and a third incarnation must come back to the round state of the second.
+
+type c15tCase struct {
+	Scenario string `json:"scenario"`
+	Events   int    `json:"events_before_crash"`
+	Tail     int    `json:"bytes_of_the_torn_record_on_disk"`
+	Then     string `json:"second_incarnation"` // "more" (three events further) | "finish" (the whole schedule) | "other"/"timeouts" (that C04 continuation, then the whole schedule)
+}
+
+// c15tReadLog decodes the node's whole WAL; it returns the number of records, the end-height markers seen and the first error.
+func c15tReadLog(wal WAL) (n int, ends []int64, err error) {
+	bw, ok := wal.(*BaseWAL)
+	if !ok {
+		return 0, nil, fmt.Errorf("not a BaseWAL: %T", wal)
+	}
+	gr, err := bw.group.NewReader(bw.group.MinIndex())
+	if err != nil {
+		return 0, nil, err
+	}
+	defer gr.Close()
+	dec := NewWALDecoder(gr)
+	for {
+		tm, err := dec.Decode()
+		if err == io.EOF {
+			return n, ends, nil
+		}
+		if err != nil {
+			return n, ends, err
+		}
+		n++
+		if eh, ok := tm.Msg.(EndHeightMessage); ok {
+			ends = append(ends, eh.Height)
+		}
+	}
+}
+
+// c15tRun returns (violation key, what, record length (0 = unknown), whether the first script had finished, inconclusive).
+var c15tLastHeight int64
+
+func c15tRun(c c15tCase) (key, what string, recLen int, finished bool, inconcl string) {
+	env := c04Env(c.Scenario)
+	w := vos.NewWorld()
+	defer w.Close()
+	env.prepare(w)
+	n, err := env.boot(w, 0)
+	if err != nil {
+		n.kill()
+		return "node:start-up-fails", err.Error(), 0, false, ""
+	}
+	d := &c04Driver{env: env, n: n, budget: c.Events}
+	d.script(c.Scenario)
+	finished = d.events < c.Events
+	if n.dead != "" {
+		n.kill()
+		if strings.HasPrefix(n.dead, "INCONCLUSIVE") {
+			return "", "", 0, finished, n.dead
+		}
+		return "node:halts-without-a-crash", n.dead, 0, finished, ""
+	}
+	if n.cs.Height > 1 {
+		n.kill()
+		return "", "", 0, true, ""
+	}
+	if err := n.cs.wal.FlushAndSync(); err != nil {
+		n.kill()
+		return "consensus/wal:flush-fails", err.Error(), 0, finished, ""
+	}
+	before := c15Proj(n.cs)
+	k0 := w.JournalLen()
+	// the record the crash tears
+	if err := n.cs.wal.Write(timeoutInfo{Duration: 7, Height: 1, Round: 0, Step: 1}); err != nil {
+		n.kill()
+		return "consensus/wal:write-fails", err.Error(), 0, finished, ""
+	}
+	_ = n.cs.wal.FlushAndSync()
+	k1 := w.JournalLen()
+	n.kill()
+	crashAt, walFile := -1, ""
+	for kk := k0 + 1; kk <= k1 && crashAt < 0; kk++ {
+		for p, rng := range w.Unsynced(kk) {
+			if rng[1] > rng[0] {
+				crashAt, walFile, recLen = kk, p, rng[1]-rng[0]
+			}
+		}
+	}
+	if crashAt < 0 {
+		return "", "", 0, finished, "INCONCLUSIVE: the extra record never was written-but-unsynced"
+	}
+	if c.Tail >= recLen {
+		return "", "", recLen, finished, ""
+	}
+	nw := w.Materialise(crashAt, vos.Policy{Tail: map[string]int{walFile: c.Tail}})
+	defer nw.Close()
+	n2, err := env.boot(nw, 1)
+	if err != nil {
+		n2.kill()
+		return "node:start-up-fails-after-torn-record", err.Error(), recLen, finished, ""
+	}
+	if after := c15Proj(n2.cs); after != before {
+		n2.kill()
+		return "consensus/replay.go:catchupReplay:round-state-differs-after-replay", fmt.Sprintf("after %d events of %q and %d of %d bytes of a further record:\nbefore crash: %s\nafter replay: %s",
+			c.Events, c.Scenario, c.Tail, recLen, before, after), recLen, finished, ""
+	}
+	d2 := &c04Driver{env: env, n: n2}
+	if c.Then == "more" {
+		d2.budget = c.Events + 3
+	}
+	if c.Then == "other" || c.Then == "timeouts" {
+		d2.script(c.Then)
+	}
+	d2.script(c.Scenario)
+	if n2.dead != "" {
+		n2.kill()
+		if strings.HasPrefix(n2.dead, "INCONCLUSIVE") {
+			return "", "", recLen, finished, n2.dead
+		}
+		return "node:halts-without-a-crash:second-incarnation", n2.dead, recLen, finished, ""
+	}
+	if err := n2.cs.wal.FlushAndSync(); err != nil {
+		n2.kill()
+		return "consensus/wal:flush-fails", err.Error(), recLen, finished, ""
+	}
+	nrec, ends, rerr := c15tReadLog(n2.cs.wal)
+	if rerr != nil {
+		n2.kill()
+		return "consensus/state.go:OnStart:records-synced-behind-a-torn-record-are-not-readable", fmt.Sprintf("after %d events of %q, %d of %d bytes of a further record, restart and %q: reading the log from its start fails after %d records (end-height markers %v, node at height %d): %v",
+			c.Events, c.Scenario, c.Tail, recLen, c.Then, nrec, ends, n2.cs.Height, rerr), recLen, finished, ""
+	}
+	for h := int64(1); h < n2.cs.Height; h++ {
+		seen := false
+		for _, e := range ends {
+			seen = seen || e == h
+		}
+		gr, found, serr := n2.cs.wal.SearchForEndHeight(h, &WALSearchOptions{})
+		if gr != nil {
+			gr.Close()
+		}
+		if !seen || !found || serr != nil {
+			n2.kill()
+			return "consensus/wal.go:SearchForEndHeight:marker-of-a-finished-height-not-found", fmt.Sprintf("height %d finished by the second incarnation: marker read back %v, search found=%v err=%v", h, seen, found, serr), recLen, finished, ""
+		}
+	}
+	before2 := c15Proj(n2.cs)
+	h2 := n2.cs.Height
+	c15tLastHeight = h2
+	k2 := nw.JournalLen()
+	n2.kill()
+	nw2 := nw.Materialise(k2, vos.Policy{KeepUnsynced: true})
+	defer nw2.Close()
+	n3, err := env.boot(nw2, 2)
+	if err != nil {
+		n3.kill()
+		return "node:start-up-fails-after-second-crash", err.Error(), recLen, finished, ""
+	}
+	after2, h3 := c15Proj(n3.cs), n3.cs.Height
+	n3.kill()
+	if h3 != h2 || (h2 == 1 && after2 != before2) {
+		return "consensus/replay.go:catchupReplay:round-state-differs-after-second-restart", fmt.Sprintf("after %d events of %q, %d of %d bytes of a further record, restart, %q, restart:\nbefore second crash: %s\nafter replay:        %s",
+			c.Events, c.Scenario, c.Tail, recLen, c.Then, before2, after2), recLen, finished, ""
+	}
+	return "", "", recLen, finished, ""
+}
+
+func TestVerifC15Torn(t *testing.T) {
+	r := vr.Start("C15", "torn", 150*time.Second, 20*time.Minute)
+	defer r.Finish()
+	r.Rule = "for each schedule of C04, each number k of delivered events, each byte length t of a further record left on disk by the crash, and each continuation (three more events | the whole schedule): " +
+		"run k events, sync, write one record, crash with t bytes of it, restart through State.OnStart, continue, sync, read the whole log (every record decodes; the marker of every finished height is found), crash, restart, compare round states; " +
+		"a case = (schedule, k, t, continuation); all distinct; non-trivial = all"
+	r.Assume("the torn record is a timeout record; since fewer bytes than its length survive, its content is never decoded")
+	var rc c15tCase
+	if rep, skip := r.ReplayCase(&rc); skip {
+		return
+	} else if rep {
+		r.Eval()
+		if k, w, _, _, _ := c15tRun(rc); k != "" {
+			r.Violation(k, w, rc)
+		}
+		return
+	}
+	thorough := r.Tier == "thorough"
+	_, _, recLen, _, _ := c15tRun(c15tCase{Scenario: "lock", Events: 1, Tail: 1 << 20, Then: "more"})
+	if recLen < 12 {
+		r.Cap("the probe run did not produce a written-but-unsynced record")
+		return
+	}
+	tails := []int{}
+	for t := 1; t < recLen; t++ {
+		tails = append(tails, t)
+	}
+	thens := []string{"more", "finish"}
+	if thorough {
+		thens = append(thens, "other", "timeouts")
+	}
+	n := 0
+	for _, sc := range []string{"lock", "proposer"} {
+		done := false
+		for ev := 1; ev < 80 && !done; ev++ {
+			for _, tl := range tails {
+				for _, then := range thens {
+					n++
+					if done || !r.Mine(n) {
+						continue
+					}
+					if r.Deadline("C15 torn-record points") {
+						return
+					}
+					c := c15tCase{Scenario: sc, Events: ev, Tail: tl, Then: then}
+					key, what, rl, finished, inconcl := c15tRun(c)
+					if finished {
+						done = true // the schedule ended before the budget: same as the previous event count
+						continue
+					}
+					if inconcl != "" {
+						r.Add("inconclusive", 1)
+						continue
+					}
+					if rl != recLen {
+						r.Cap(fmt.Sprintf("record length %d differs from the probed %d", rl, recLen))
+						continue
+					}
+					r.Eval()
+					r.NTCount(1)
+					if key != "" {
+						if k2, _, _, _, _ := c15tRun(c); k2 != key {
+							r.Cap("a violation did not reproduce on re-execution; it was not reported")
+							continue
+						}
+						r.Outcome(key)
+						r.Violation(key, what, c)
+					} else {
+						r.Outcome(fmt.Sprintf("log-readable-and-same-state-after-second-restart/%s/second-incarnation-reached-height-%d", then, c15tLastHeight))
+					}
+					if n%37 == 0 {
+						r.Sample(c)
+					}
+				}
+			}
+		}
+	}
+	r.Bound = "every event count of both schedules; " + "every byte length of the torn record; continuations " + strings.Join(thens, ",")
 }
